@@ -1300,6 +1300,36 @@ fn build_summary_rows(metrics: &RepositoryMetrics) -> Vec<Vec<Cow<'_, str>>> {
     rows
 }
 
+#[cfg(feature = "verif-hooks")]
+pub mod verif {
+    //! Wrappers used by the verification harness (cargo feature `verif-hooks`).
+    use super::*;
+
+    /// fold `push_top` over the items in the given order, then the report order (largest first)
+    pub fn top_n(limit: usize, items: &[(u64, String)]) -> Vec<(u64, String)> {
+        let mut heap: BinaryHeap<Reverse<(u64, String)>> = BinaryHeap::new();
+        for (size, oid) in items {
+            push_top(&mut heap, limit, *size, oid);
+        }
+        heap.into_sorted_vec()
+            .into_iter()
+            .map(|Reverse((size, oid))| (size, oid))
+            .collect()
+    }
+
+    /// `compute_largest_files` on supplied maps: (path, size, versions, largest oid)
+    pub fn largest_files(
+        blob_paths: &HashMap<String, Vec<String>>,
+        sizes: &HashMap<String, u64>,
+        top: usize,
+    ) -> Vec<(String, u64, usize, String)> {
+        compute_largest_files(blob_paths, sizes, &HashMap::new(), top)
+            .into_iter()
+            .map(|f| (f.path, f.size, f.versions, f.largest_oid))
+            .collect()
+    }
+}
+
 #[cfg(test)]
 mod tests {
     use super::{
